@@ -40,7 +40,7 @@ def run_cases(ctx, cases, tag):
         else:
             items.append((10, 1, enc.tree([cs, al])))
         items.append((10, 7, enc.tree([cs, al, [rc.chars(w) for w in c["words"]]])))
-    answers = ctx.driver.batch(items)
+    answers = ctx.driver.batch(items, timeout=120, tolerant=True, item_timeout=40)
     for i, (c, out) in enumerate(zip(cases, impls)):
         a_parse, a_cmp, a_words = answers[3 * i], answers[3 * i + 1], answers[3 * i + 2]
         judge(ctx, c, out, enc.dec_res(a_parse), enc.dec_res(a_cmp), enc.dec_res(a_words), tag)
@@ -89,6 +89,8 @@ def judge(ctx, c, out, m_parse, m_cmp, m_words, tag):
                 problems.append(f"nfa_diff: implementation and model differ on {w!r} (impl accepts: {iw}, denotation: {ew})")
                 if iw is not None and iw != ew:
                     confirmed = True
+        elif m_cmp == ("err", 96):
+            ctx.tally("comparator_inconclusive")     # driver timeout on this (large) implementation NFA
         else:
             problems.append(f"model compile = {m_cmp} but from_regex succeeded")
     nontrivial = r[0] not in ("eps", "sym", "any") and expected not in (set(), {""})
